@@ -27,6 +27,7 @@ EXC_CODES = ['ValueError', 'UnicodeError', 'UnicodeEncodeError', 'UnicodeDecodeE
              'OverflowError']
 NATIVE_ENC = {'utf-8': 'utf8', 'latin-1': 'latin1', 'ascii': 'ascii'}
 TABLE_ENCODINGS = ['cp1252', 'shift_jis', 'koi8-r', 'gbk', 'euc-kr', 'big5']
+WIDE_ENCODINGS = ['utf-16', 'utf-16-le', 'utf-16-be', 'utf-32']
 
 TRUSTED_COMMON = [
     'parameters of the model, logged from the real run and passed per case: str.encode("idna") of non-ASCII hosts, '
@@ -353,6 +354,8 @@ def run_real(wu, case, op='parse'):
         case.real = 'timeout'
     # model request
     encname = {'utf-8': 'utf8', 'iso8859-1': 'latin1', 'ascii': 'ascii'}.get(codecs.lookup(case.encoding).name, 'table')
+    if 'az09/?#%. '.encode(case.encoding) != b'az09/?#%. ':
+        encname = 'utf8'        # UTF-16/32 documents: the (repaired) code percent-encodes as UTF-8
     enct = []
     if encname == 'table':
         # the lower-cased scheme candidate can re-enter the text ('.' in scheme): its characters too
@@ -584,7 +587,7 @@ def seed_urls(repo):
 # ------------------------------------------------------------------ generators
 ALNUM = 'abcdefghijklmnopqrstuvwxyz0123456789'
 SPECIAL = ':/?#@[]%.\\ +-_=&;~!$\'()*,"<>`{}|^'
-NONASCII = ['é', 'ß', 'İ', 'ı', 'Σ', 'ς', '文', '字', '\u200c', '\u200d', '。', '．', '｡', '１', '０', 'ｘ', '７', 'Ａ', '\xa0',
+NONASCII = ['Ġ', '\u2020', '\u202f', '\u2f2e', '\u2e2f', '\u3f23', 'é', 'ß', 'İ', 'ı', 'Σ', 'ς', '文', '字', '\u200c', '\u200d', '。', '．', '｡', '１', '０', 'ｘ', '７', 'Ａ', '\xa0',
             '\x85', '\u3000', '\u2028', '٣', '߁', '\U0001d7d8', '\U0001f600', '†', 'Ｆ', 'ﬁ', 'Ǆ', '\u0345', '\xad', 'K', 'Å']
 SURR = ['\ud800', '\udc80', '\udfff', '\udcff']
 
@@ -908,6 +911,8 @@ def pick_config(rng):
         encoding = rng.choice(['latin-1', 'ascii'])
     elif r < 0.18:
         encoding = rng.choice(TABLE_ENCODINGS)
+    elif r < 0.24:
+        encoding = rng.choice(WIDE_ENCODINGS)
     return ds, encoding
 
 
